@@ -405,6 +405,7 @@ def guard_info(facts, b):
     """locals with a Drop impl whose body removes a file: [(local, creation block, path-operand ok?, disarm blocks)]"""
     out = []
     seen = set()
+    GUARD_DROP_PROBLEM.clear()
     for bb in sorted(b.reachable() | {i for i in range(len(b.blocks))}):
         t = b.blocks[bb]['term']
         if t['k'] != 'drop' or not t.get('drop_impl'):
@@ -423,6 +424,9 @@ def guard_info(facts, b):
             if st['k'] == 'assign' and pkey(st['lhs']) == (l, ()) and 'agg' in st['rv']:
                 create = b2
                 path_ok = any(is_path_of(b, o, 'output_path') for o in st['rv']['ops'])
+                # the guard must start out ARMED: its disarm flag is the constant false in the literal
+                if any((o.get('const') or {}).get('ty') == 'bool' and (o.get('const') or {}).get('int') == 1 for o in st['rv']['ops']):
+                    GUARD_DROP_PROBLEM[l] = 'the guard is created already disarmed (its keep flag is true from the start): no failing exit removes the output'
             elif st['k'] == 'assign' and pkey(st['lhs']) == (l, ()) and 'use' in st['rv'] and op_local(st['rv']['use']) is not None:
                 # `guard = move tmp` with `tmp = Guard { .. }` (a constructor inlined by hand or by the engine)
                 for b3, kind, rv in b.defs().get(op_local(st['rv']['use']), ()):
@@ -469,7 +473,7 @@ def guard_info(facts, b):
                 if 'move' in a and a['move']['l'] == l and not a['move']['p']:
                     moved = True
         out.append((l, create, path_ok, disarm, moved))
-        GUARD_DROP_PROBLEM[l] = drop_problem(facts, db)
+        GUARD_DROP_PROBLEM[l] = GUARD_DROP_PROBLEM.get(l) or drop_problem(facts, db)
     return out
 
 
@@ -585,6 +589,78 @@ def r184(facts, res):
     r184_for(facts, res, R, lb, 'lexer-builder')
 
 
+def r189(facts, res):
+    """The token-map builder writes a generated file too: every failing exit of CTTokenMapBuilder::build except the lookup of the
+    output directory itself lies under a drop guard that removes the output (armed before the exit, disarmed only right before an Ok
+    exit) - a build that fails while rendering the constants must not leave the file generated from an earlier token map."""
+    R = 'R18.9'
+    bs = [b for b in facts.lib_bodies(['lrlex']) if b.name == 'build' and 'CTTokenMapBuilder' in (b.impl_of or '')]
+    if len(bs) != 1:
+        res.lost(R, 'CTTokenMapBuilder::build not found')
+        return
+    b = bs[0]
+    errs, oks, divs = exits(b)
+    F = sorted(set(errs + divs))
+    # exits that are the failure of the OUT_DIR lookup itself: nothing is known about the output yet
+    envf = {x for x in F if producer(b, x) in ('?-on-var', '?-on-var_os')}
+    F = [x for x in F if x not in envf]
+    guards = guard_info(facts, b)
+    key = 'token-map-builder/guard'
+    if not guards:
+        creates = b.calls_named('create')
+        if not creates:
+            res.lost(R, 'CTTokenMapBuilder::build neither creates a file nor has an output guard')
+            return
+        early = [x for x in F if x in b.reachable([0], avoid={creates[0][0]})]
+        res.bad(R, key, loc_of(b, early[0]) if early else loc_of(b), 'the builder has no guard that removes its output: %d failing exit(s) (e.g. %s at line %s) return an error while the file '
+                'written by an earlier build stays in OUT_DIR' % (len(early), producer(b, early[0]) if early else '?', b.term(early[0]).get('line') if early else '?'), {'function': b.path})
+        return
+    l, create, path_ok, disarm, moved = guards[0]
+    problems = []
+    if create is None:
+        problems.append('guard is never constructed')
+    else:
+        for x in [x for x in F if x in b.reachable([0], avoid={create})]:
+            problems.append('failing exit (%s, line %s) before the guard is armed' % (producer(b, x), b.term(x).get('line')))
+    if moved:
+        problems.append('guard value is moved into a call')
+    if GUARD_DROP_PROBLEM.get(l):
+        problems.append(GUARD_DROP_PROBLEM[l])
+    for sblk in disarm:
+        late = [x for x in errs + divs if x in b.reachable([sblk]) and x != sblk]
+        for x in late:
+            problems.append('failing exit (%s, line %s) is reachable after the guard is disarmed' % (producer(b, x), b.term(x).get('line')))
+    if not disarm:
+        problems.append('guard is never disarmed: a successful build would delete its own output')
+    if problems:
+        res.bad(R, key, loc_of(b, create if create is not None else 0), '; '.join(problems[:4]), {'function': b.path})
+    else:
+        res.ok(R, key, loc_of(b, create), 'a drop guard for the output file is armed before anything can fail (after the OUT_DIR lookup) and disarmed only before Ok exits: all %d failing exits remove the output' % len(F))
+
+
+def r1810(facts, res):
+    """A lexer build that configures a nested parser build (lrpar_config) owns two generated files.  A failing exit of
+    CTLexerBuilder::build that is reached BEFORE the nested CTParserBuilder::build has run leaves the parser file of an earlier
+    grammar in place (nothing has claimed or removed it yet)."""
+    R = 'R18.10'
+    b = facts.one(R, 'CTLexerBuilder::build', crate='lrlex', name='build', impl_re='^' + LB)
+    nested = [bb for bb, t in b.calls_named('build') if 'CTParserBuilder' in (cpath(t) or '') + (callee_of(t).get('self_ty') or '')]
+    if not nested:
+        res.lost(R, 'the nested CTParserBuilder::build call was not found in CTLexerBuilder::build')
+        return
+    errs, oks, divs = exits(b)
+    claims = [bb for bb, t in b.calls_named('insert') if 'PathBuf' in (callee_of(t).get('self_ty') or '')]
+    after_claim = b.reachable(b.succs(claims[0])) if claims else b.reachable()
+    early = sorted(x for x in set(errs + divs) if x in after_claim and x in b.reachable([0], avoid=set(nested)))
+    key = 'lexer-builder/nested-parser-output'
+    if early:
+        res.bad(R, key, loc_of(b, early[0]), '%d failing exits of the lexer build (the first: %s at line %s) are reached before the nested parser build has run: with `lrpar_config` the '
+                'parser file generated from an earlier grammar is neither claimed nor removed on these exits' % (len(early), producer(b, early[0]), b.term(early[0]).get('line')),
+                {'function': b.path, 'exits': [(producer(b, x), b.term(x).get('line')) for x in early]})
+    else:
+        res.ok(R, key, loc_of(b, nested[0]), 'no failing exit of the lexer build precedes the nested parser build')
+
+
 def r185(facts, res):
     R = 'R18.5'
     b = facts.one(R, 'CTLexerBuilder::build', crate='lrlex', name='build', impl_re='^' + LB)
@@ -670,4 +746,6 @@ def run(facts, res):
     r182(facts, res)
     r183(facts, res)
     r184(facts, res)
+    r189(facts, res)
+    r1810(facts, res)
     r185(facts, res)
